@@ -95,6 +95,39 @@ impl<'a> Printer<'a> {
         }
     }
 
+    /// Operand of a binary operator: a nested binary operation is printed without parentheses (in
+    /// half of the cases) where Rust's precedence and left associativity make them redundant, so that
+    /// the meaning of un-parenthesised operator chains is exercised too.
+    fn bin_operand(&mut self, child: &Expr, parent: crate::ints::BinOp, left: bool) -> Span {
+        use crate::ints::BinOp::*;
+        fn prec(op: crate::ints::BinOp) -> u8 {
+            match op {
+                OrOr => 1,
+                AndAnd => 2,
+                Eq | Ne | Lt | Gt | Le | Ge => 3,
+                BitOr => 5,
+                BitXor => 6,
+                BitAnd => 7,
+                Shl | Shr => 8,
+                Add | Sub => 9,
+                Mul | Div | Rem => 10,
+            }
+        }
+        let redundant = match &child.kind {
+            ExprKind::Bin(cop, ..) => {
+                let (cp, pp) = (prec(*cop), prec(parent));
+                // comparisons do not chain (Rust rejects `a == b < c`): always parenthesised
+                cp > pp || (cp == pp && left && pp != 3)
+            }
+            _ => false,
+        };
+        if redundant && self.choice(2) == 0 {
+            self.expr(child)
+        } else {
+            self.operand(child)
+        }
+    }
+
     fn postfix_base(&mut self, e: &Expr) -> Span {
         if is_postfix_base(e) {
             self.expr(e)
@@ -167,9 +200,9 @@ impl<'a> Printer<'a> {
                 (i, s.1)
             }
             ExprKind::Bin(op, a, b) => {
-                let sa = self.operand(a);
+                let sa = self.bin_operand(a, *op, true);
                 self.emit(op.sym());
-                let sb = self.operand(b);
+                let sb = self.bin_operand(b, *op, false);
                 (sa.0, sb.1)
             }
             ExprKind::Cast(x) => {
